@@ -408,6 +408,33 @@ def macro_history(rng, stats, viol, src_model):
                     viol.append(dict(what='a macro source does not compile to the bytes of the same source with the template written out (%s)' % outc,
                                      source=src, written_out=flat, expected=want.hex(), got=(got.hex() if got is not None else None)))
             src_model(src, got, outc, 'macro-history')
+    # macros of two parameters whose NAMES read like values (d1, x0a ...), invoked with arguments spelled like the other parameter's name:
+    # every parameter is replaced by its own argument, once (the arguments are not substituted again)
+    f0, f1 = rng.choice([('d1', 'd2'), ('x0a', 'x0b'), ('d2', 'd1'), ('x01', 'd1')])
+    for a0, a1 in ((f1, f0), (f1, 'd9'), ('d9', f0), (f1, f1), ('x07', 'x08')):
+        tmpl = rng.choice(['push %s push %s', 'push %s push %s push %s', 'push %s if { push %s } push %s', 'true push %s not push %s'])
+        holes = [rng.choice([f0, f1]) for _ in range(tmpl.count('%s'))]
+        if f0 not in holes: holes[0] = f0
+        if f1 not in holes: holes[-1] = f1
+        t = tmpl % tuple(holes)
+        flat = tmpl % tuple({f0: a0, f1: a1}[h_] for h_ in holes)
+        src = '!= mm [ %s %s ] { %s } true !mm [ %s %s ] false' % (f0, f1, t, a0, a1)
+        flat = 'true %s false' % flat
+        stats['compile:macro-params-like-values'] += 1
+        try:
+            want = P.compile_script(flat)
+        except BaseException:
+            continue
+        try:
+            got, outc = P.compile_script(src), 'ok'
+        except BaseException as e:
+            got, outc = None, type(e).__name__
+        if got != want:
+            stats['direct-fail'] += 1
+            if len(viol) < 8:
+                viol.append(dict(what='a macro call does not compile to the template with every parameter replaced by its own argument (%s)' % outc,
+                                 source=src, written_out=flat, expected=want.hex(), got=(got.hex() if got is not None else None)))
+        src_model(src, got, outc, 'macro-params-like-values')
 
 
 MALFORMED = [
